@@ -28,9 +28,10 @@ var pureExternalPrefixes = []string{
 
 var pureInvokePrefixes = []string{
 	"(github.com/pion/logging.LeveledLogger).", "(error).Error", "(net.Addr).", "(fmt.Stringer).", "(context.Context).",
-	"(hash.Hash).Size", "(hash.Hash).BlockSize", "(hash.Hash).Write", "(hash.Hash).Reset", "(hash.Hash).Sum",
-	"(crypto/cipher.AEAD).NonceSize", "(crypto/cipher.AEAD).Overhead", "(crypto/cipher.Block).BlockSize",
-	"(crypto/cipher.BlockMode).BlockSize",
+	"(hash.Hash).",
+	"(crypto/cipher.AEAD).", "(crypto/cipher.Block).", "(crypto/cipher.BlockMode).", "(crypto/cipher.Stream).",
+	"(io.Reader).Read", "(io.Writer).Write",
+	"(github.com/pion/dtls/v3/pkg/crypto/ciphersuite.cbcMode).",
 	"(github.com/pion/logging.LoggerFactory).",
 	"(crypto.PublicKey).", "(crypto.Signer).Public",
 }
@@ -48,6 +49,22 @@ func hasAnyPrefix(s string, ps []string) bool {
 func externalMods(fn *ssa.Function) ([]string, bool) {
 	full := fn.String()
 	if hasAnyPrefix(full, pureExternalPrefixes) {
+		return []string{"$alloc"}, true
+	}
+	if p := pkgOf(fn); p != nil {
+		path := p.Pkg.Path()
+		switch {
+		case path == "sync/atomic", path == "internal/runtime/atomic":
+			// the pointee is written by Store/Add/Swap/CompareAndSwap: callers inside the repository
+			// reach these through intrinsics; elsewhere only the atomic cell changes
+			return []string{"M$uint32", "M$uint64", "M$int32", "M$int64", "M$uintptr", "M$unsafe.Pointer", "F$sync/atomic.Value$v", "F$sync/atomic.Bool$v", "F$sync/atomic.Uint32$v", "F$sync/atomic.Uint64$v", "F$sync/atomic.Int32$v", "F$sync/atomic.Int64$v"}, true
+		case strings.HasPrefix(path, "crypto/") && path != "crypto/x509" && path != "crypto/tls", path == "crypto", strings.HasPrefix(path, "hash"),
+			strings.HasPrefix(path, "golang.org/x/crypto/") && path != "golang.org/x/crypto/cryptobyte":
+			// crypto library code writes only its own objects and the byte buffers handed to it
+			return []string{"$alloc", "M$uint8"}, true
+		}
+	}
+	if strings.HasPrefix(full, "(*sync.Pool).") {
 		return []string{"$alloc"}, true
 	}
 	switch {
@@ -200,6 +217,32 @@ func (f *frame) intrinsic(full string, callee *ssa.Function, c *ssa.CallCommon, 
 		vc.assume(mkAnd(sle(slLen(b), ncap), sle(ncap, bvLit(64, 1<<40))))
 		res := mkIte(mkEq(slObj(b), i64(0)), nilSlice, mkSlice(obj, i64(0), slLen(b), ncap))
 		return []Term{res}, true
+	case strings.HasPrefix(full, "slices.Contains["), strings.HasPrefix(full, "slices.Index["):
+		sl, okT := c.Args[0].Type().Underlying().(*types.Slice)
+		if !okT {
+			return nil, false
+		}
+		el := sl.Elem()
+		if isStructType(el) || tt.sortOf(el) == SStr || tt.sortOf(el) == SIface || tt.sortOf(el) == SFloat {
+			return nil, false
+		}
+		vc.trust("slices.Contains / slices.Index (first index of an equal element, -1 if none)")
+		s, v := args[0], args[1]
+		es := tt.sortOf(el)
+		hn, hs := tt.elemHeap(el)
+		inner := vc.define(f.prefix+"sc$in", mkSelect(f.st.get(hn, hs), slObj(s), arraySort(SBV64, es)))
+		k := vc.declareFresh(f.prefix+"sc$k", SBV64)
+		found := vc.declareFresh(f.prefix+"sc$found", SBool)
+		at := func(i Term) Term { return mkSelect(inner, bvAdd(slOff(s), i), es) }
+		vc.hasQuant = true
+		none := fmt.Sprintf("(forall ((i!n (_ BitVec 64))) (=> (and (bvsle #x0000000000000000 i!n) (bvslt i!n %s)) (not (= %s %s))))", slLen(s).S, at(Term{"i!n", SBV64}).S, v.S)
+		before := fmt.Sprintf("(forall ((i!n (_ BitVec 64))) (=> (and (bvsle #x0000000000000000 i!n) (bvslt i!n %s)) (not (= %s %s))))", k.S, at(Term{"i!n", SBV64}).S, v.S)
+		vc.assume(mkImplies(found, mkAnd(sle(i64(0), k), slt(k, slLen(s)), mkEq(at(k), v), Term{before, SBool})))
+		vc.assume(mkImplies(mkNot(found), Term{none, SBool}))
+		if strings.HasPrefix(full, "slices.Contains[") {
+			return []Term{found}, true
+		}
+		return []Term{mkIte(found, k, i64(-1))}, true
 	case full == "errors.New", full == "fmt.Errorf":
 		vc.trust(full)
 		a := f.alloc(i64(1))
@@ -302,7 +345,7 @@ func (f *frame) intrinsicInvoke(full string, c *ssa.CallCommon, args []Term, pos
 	if hasAnyPrefix(full, pureInvokePrefixes) {
 		vc.trust(full + " (no effect on program state, result unconstrained)")
 		mods := map[string]bool{"$alloc": true}
-		if strings.HasSuffix(full, ".Sum") {
+		if strings.HasSuffix(full, ".Sum") || strings.HasPrefix(full, "(crypto/cipher.") || strings.HasPrefix(full, "(io.Reader)") || strings.Contains(full, ".cbcMode)") {
 			hn, _ := f.byteHeap()
 			mods[hn] = true
 		}
